@@ -19,6 +19,9 @@
      Move.unpack reads no input bytes and stores nothing; every Fragments.insert -- an empty
      chunk included -- is recorded and moves the cursor, and tobytes fills holes (C11 1, 2, 5).
 Values returned by user callables are not decided.
+
+Round 5: (k) Packet.unpack hands the drivers the caller's data and offset unchanged; (l) a
+positioning pseudo-field never joins a struct block (no struct code outside Int / Data).
 """
 import ast
 import copy
